@@ -471,20 +471,6 @@ def blockOpOf (g : Nat) (sub : Circ) (loc : List Nat) : Op :=
 /-! ## the interpreter -/
 def Res.fail (tr : List Ev) (s : St) (w : World) (e : Err) : Res := ⟨tr, s, w, .raised e⟩
 
-/-- `Workflow.run`: the passes in order; an exception stops the sequence -/
-def seqM (f : Tree → World → St → Option Res) : List Tree → World → St → Option Res
-  | [], w, s => some ⟨[], s, w, .ok⟩
-  | t :: ts, w, s =>
-    match f t w s with
-    | none => none
-    | some r =>
-      match r.out with
-      | .raised _ => some r
-      | .ok =>
-        match seqM f ts r.w r.st with
-        | none => none
-        | some r2 => some { r2 with trace := r.trace ++ r2.trace }
-
 /-- `_sub_do_work(workflow, circuit, data)` on a worker: the process-global script is not there -/
 def subDoWork (f : Tree → World → St → Option Res) (t : Tree) (w : World) (s : St) : Option Res :=
   let flag0 := ((s.data.data.get? calcKey).map Val.truthy).getD false
@@ -559,158 +545,216 @@ structure BlockJob where
   sub : Circ
   bd : PData
 
-def exec (env : Env) : Nat → Tree → World → St → Option Res
-  | 0, _, _, _ => none
-  | fuel + 1, t, w, s =>
-    match t with
-    | .leaf i =>
-      let (s', e) := env.leaf i s
-      some ⟨[⟨i, s, false⟩], s', w, match e with | some e => .raised e | none => .ok⟩
-    | .seq ts => seqM (exec env fuel) ts w s
-    | .ite p t e =>
-      match evalPred p w s with
-      | .error err => some (Res.fail [] s w err)
-      | .ok (b, w, s) =>
-        if b then exec env fuel t w s
-        else match e with
-          | some e => exec env fuel e w s
-          | none => some ⟨[], s, w, .ok⟩
-    | .while p b =>
-      match evalPred p w s with
-      | .error err => some (Res.fail [] s w err)
-      | .ok (c, w, s) =>
-        if !c then some ⟨[], s, w, .ok⟩
-        else match exec env fuel b w s with
-          | none => none
-          | some r =>
-            match r.out with
-            | .raised _ => some r
-            | .ok =>
-              match exec env fuel (.while p b) r.w r.st with
-              | none => none
-              | some r2 => some { r2 with trace := r.trace ++ r2.trace }
-    | .doWhile p b =>
-      match exec env fuel b w s with
+abbrev Run := Tree → World → St → Option Res
+
+/-- sequential composition: run `k` on the outcome of `r` unless `r` raised -/
+def Res.andThen (r : Res) (k : World → St → Option Res) : Option Res :=
+  match r.out with
+  | .raised _ => some r
+  | .ok =>
+    match k r.w r.st with
+    | none => none
+    | some r2 => some { r2 with trace := r.trace ++ r2.trace }
+
+def Res.skip (w : World) (s : St) : Res := ⟨[], s, w, .ok⟩
+
+/-- `Workflow.run`: the passes in order; an exception stops the sequence -/
+def seqM (f : Tree → World → St → Option Res) : List Tree → World → St → Option Res
+  | [], w, s => some (Res.skip w s)
+  | t :: ts, w, s =>
+    match f t w s with
+    | none => none
+    | some r => r.andThen (seqM f ts)
+
+def leafM (env : Env) (i : Nat) (w : World) (s : St) : Res :=
+  ⟨[⟨i, s, false⟩], (env.leaf i s).1, w, match (env.leaf i s).2 with | some e => .raised e | none => .ok⟩
+
+/-- IfThenElsePass.run -/
+def iteM (f : Run) (p : Pred) (t : Tree) (e : Option Tree) (w : World) (s : St) : Option Res :=
+  match evalPred p w s with
+  | .error err => some (Res.fail [] s w err)
+  | .ok (b, w, s) =>
+    if b then f t w s
+    else match e with
+      | some e => f e w s
+      | none => some (Res.skip w s)
+
+/-- WhileLoopPass.run: one test, one body execution, then the loop again -/
+def whileM (f : Run) (p : Pred) (b : Tree) (w : World) (s : St) : Option Res :=
+  match evalPred p w s with
+  | .error err => some (Res.fail [] s w err)
+  | .ok (c, w, s) =>
+    if !c then some (Res.skip w s)
+    else match f b w s with
       | none => none
-      | some r =>
-        match r.out with
-        | .raised _ => some r
-        | .ok =>
-          match exec env fuel (.while p b) r.w r.st with
-          | none => none
-          | some r2 => some { r2 with trace := r.trace ++ r2.trace }
-    | .dtd c body =>
-      -- old_circuit = circuit.copy(); old_data = data.copy()
-      let oldCirc := s.circ
-      let oldData := s.data.copyWith env.copyFields
-      match exec env fuel body w s with
+      | some r => r.andThen (f (.while p b))
+
+/-- DoWhileLoopPass.run -/
+def doWhileM (f : Run) (p : Pred) (b : Tree) (w : World) (s : St) : Option Res :=
+  match f b w s with
+  | none => none
+  | some r => r.andThen (f (.while p b))
+
+/-- the state DoThenDecide goes back to: `circuit.become(old_circuit)`, `data.become(old_data)`
+with `old_data = data.copy()` taken before the body ran -/
+def restore (env : Env) (old : St) (now : St) : St :=
+  ⟨old.circ, now.data.becomeWith env.becomeFields (old.data.copyWith env.copyFields)⟩
+
+/-- DoThenDecide.run -/
+def dtdM (env : Env) (f : Run) (c : Cond) (body : Tree) (w : World) (s : St) : Option Res :=
+  match f body w s with
+  | none => none
+  | some r =>
+    match r.out with
+    | .raised _ => some r
+    | .ok =>
+      match evalCond env c r.w s.circ r.st.circ with
+      | .error err => some { r with out := .raised err }
+      | .ok (accept, w') =>
+        if accept then some { r with w := w' }
+        else some { r with w := w', st := restore env s r.st }
+
+/-- the branches ParallelDo waits for: all of them, or the first arrival batch of `runtime.next` -/
+def arrivedOf (pickFirst : Bool) (n : Nat) (w : World) : Option (List Nat × World) :=
+  if pickFirst then
+    match w.arrivals with
+    | a :: rest => some (a, { w with arrivals := rest })
+    | [] => none
+  else some (List.range n, w)
+
+/-- ParallelDo.run.  With `pick_first` only the branches of the first arrival batch are awaited; the
+others are cancelled and their results never looked at (the model does not run them). -/
+def parM (env : Env) (f : Run) (ws : List Tree) (lt : Cond) (pickFirst : Bool) (w : World) (s : St) :
+    Option Res :=
+  match arrivedOf pickFirst ws.length w with
+  | none => some (Res.fail [] s w .runtime)
+  | some (idxs, w0) =>
+    let jobs := ws.zipIdx.filter (fun (j : Tree × Nat) => idxs.contains j.2)
+    match mapM' (fun w (j : Tree × Nat) => subDoWork f j.1 w s) w0 jobs with
+    | none => none
+    | some (rs, w2) =>
+      let tr := jobTraces rs (List.range rs.length)
+      -- results in arrival order
+      let chosen := idxs.filterMap (fun i => ((jobs.zip rs).find? (fun jr => jr.1.2 == i)).map (·.2))
+      match firstRaised rs with
+      | some e => some (Res.fail tr s w2 e)
+      | none =>
+        match chosen with
+        | [] => some (Res.fail tr s w2 .runtime)
+        | first :: rest =>
+          match pickBestM env lt w2 first rest with
+          | .error e => some (Res.fail tr s w2 e)
+          | .ok (best, w3) =>
+            some ⟨tr, ⟨best.st.circ, s.data.becomeWith env.becomeFields best.st.data⟩, w3, .ok⟩
+
+/-! ### ForEachBlockPass.run -/
+def feUnknown (env : Env) (cfg : FECfg) : Bool :=
+  match cfg.rfilter with
+  | .named name => !(env.filters.any (·.1 == name))
+  | .fn _ => false
+
+/-- `if self.key not in data: data[self.key] = []` -/
+def feRoom (s : St) : St :=
+  if s.data.data.has feKey then s
+  else { s with data := { s.data with data := s.data.data.put feKey (.list []) } }
+
+/-- `data[self.key].append(v)` -/
+def feAppendRec (d : PData) (v : Val) : PData :=
+  match d.data.get? feKey with
+  | some (.list l) => { d with data := d.data.put feKey (.list (l ++ [v])) }
+  | _ => d
+
+/-- "Collect blocks" -/
+def feBlocks (env : Env) (bl : Blocks) (cfg : FECfg) (c : Circ) : List (Nat × Op) :=
+  c.iterCyc.filter (fun (b : Nat × Op) => evalCollect env bl cfg.collect b.2)
+
+/-- "Preprocess blocks" -/
+def feJobs (bl : Blocks) (cfg : FECfg) (s0 : St) (blocks : List (Nat × Op)) : Except Err (List BlockJob) :=
+  blocks.zipIdx.mapM (fun (b : (Nat × Op) × Nat) =>
+    let sub := subCircuit bl b.1.2
+    match subModel s0.data s0.circ b.1.2 with
+    | none => .error .value
+    | some sm =>
+      match blockData s0.data b.2 b.1.1 b.1.2 sub sm cfg.calcErr with
+      | .error e => .error e
+      | .ok bd => .ok ⟨b.2, b.1.1, b.1.2, sub, bd⟩)
+
+/-- the replace filter's verdict on the result of one block -/
+def feAccept (env : Env) (cfg : FECfg) (model : MModel) (bl : Blocks) (new : Circ) (old : Op) :
+    Option Bool :=
+  match cfg.rfilter with
+  | .fn i => some (env.rfilt i bl new old)
+  | .named name => (env.filters.find? (·.1 == name)).map
+      (fun e => e.2.eval model new old (bl.body? old.gid))
+
+structure FEPost where
+  w : World
+  items : List ((Int × Int) × Op)
+  recs : List Val
+  esum : Rat
+
+/-- "Postprocess blocks", one block -/
+def fePostStep (env : Env) (cfg : FECfg) (model : MModel) (acc : FEPost) (jr : BlockJob × Res) : FEPost :=
+  let new := jr.2.st.circ
+  match feAccept env cfg model acc.w.blocks new jr.1.op with
+  | none => acc
+  | some true =>
+    let ib := internBlock acc.w.blocks new
+    let bd := { jr.2.st.data with data := jr.2.st.data.data.put "replaced" (Val.ofBool true) }
+    { w := { acc.w with blocks := ib.1 },
+      items := acc.items ++ [(((jr.1.cycle : Int), (jr.1.op.head : Int)), blockOpOf ib.2 new jr.1.op.loc)],
+      recs := acc.recs ++ [encPData bd], esum := acc.esum + bd.error }
+  | some false =>
+    let bd := { jr.2.st.data with data := jr.2.st.data.data.put "replaced" (Val.ofBool false) }
+    { acc with recs := acc.recs ++ [encPData bd] }
+
+def fePost (env : Env) (cfg : FECfg) (model : MModel) (w1 : World) (jrs : List (BlockJob × Res)) : FEPost :=
+  jrs.foldl (fePostStep env cfg model) ⟨w1, [], [], 0⟩
+
+def forEachM (env : Env) (f : Run) (cfg : FECfg) (body : Tree) (w : World) (s : St) : Option Res :=
+  if feUnknown env cfg then some (Res.fail [] s w .value) else    -- gen_replace_filter raises first
+  let s0 := feRoom s
+  let blocks := feBlocks env w.blocks cfg s0.circ
+  if blocks.isEmpty then
+    some ⟨[], { s0 with data := feAppendRec s0.data (.list []) }, w, .ok⟩
+  else
+    match feJobs w.blocks cfg s0 blocks with
+    | .error e => some (Res.fail [] s0 w e)
+    | .ok jobs =>
+      match mapM' (fun w (j : BlockJob) => subDoWork f body w ⟨j.sub, j.bd⟩) w jobs with
       | none => none
-      | some r =>
-        match r.out with
-        | .raised _ => some r
-        | .ok =>
-          match evalCond env c r.w oldCirc r.st.circ with
-          | .error err => some { r with out := .raised err }
-          | .ok (accept, w') =>
-            if accept then some { r with w := w' }
-            else some { r with w := w',
-                               st := ⟨oldCirc, r.st.data.becomeWith env.becomeFields oldData⟩ }
-    | .par ws lt pickFirst =>
-      -- with `pick_first` only the branches of the first arrival batch are awaited; the others are
-      -- cancelled and their results never looked at (they are not run by the model)
-      let arrived : Option (List Nat × World) :=
-        if pickFirst then
-          match w.arrivals with
-          | a :: rest => some (a, { w with arrivals := rest })
-          | [] => none
-        else some (List.range ws.length, w)
-      match arrived with
-      | none => some (Res.fail [] s w .runtime)
-      | some (idxs, w0) =>
-        let jobs := ws.zipIdx.filter (fun (_, i) => idxs.contains i)
-        match mapM' (fun w (j : Tree × Nat) => subDoWork (exec env fuel) j.1 w s) w0 jobs with
-        | none => none
-        | some (rs, w2) =>
-          let tr := jobTraces rs (List.range rs.length)
-          -- results in arrival order
-          let chosen := idxs.filterMap (fun i => ((jobs.zip rs).find? (fun jr => jr.1.2 == i)).map (·.2))
-          match firstRaised rs with
-          | some e => some (Res.fail tr s w2 e)
-          | none =>
-            match chosen with
-            | [] => some (Res.fail tr s w2 .runtime)
-            | first :: rest =>
-              match pickBestM env lt w2 first rest with
-              | .error e => some (Res.fail tr s w2 e)
-              | .ok (best, w3) =>
-                some ⟨tr, ⟨best.st.circ, s.data.becomeWith env.becomeFields best.st.data⟩, w3, .ok⟩
-    | .forEach cfg body =>
-      let unknown := match cfg.rfilter with
-        | .named name => !(env.filters.any (·.1 == name))
-        | .fn _ => false
-      if unknown then some (Res.fail [] s w .value) else    -- gen_replace_filter raises first
-      -- make room in data for block data
-      let s0 : St := if s.data.data.has feKey then s
-        else { s with data := { s.data with data := s.data.data.put feKey (.list []) } }
-      let appendRec (d : PData) (v : Val) : PData :=
-        match d.data.get? feKey with
-        | some (.list l) => { d with data := d.data.put feKey (.list (l ++ [v])) }
-        | _ => d
-      let blocks := s0.circ.iterCyc.filter (fun (_, o) => evalCollect env w.blocks cfg.collect o)
-      if blocks.isEmpty then
-        some ⟨[], { s0 with data := appendRec s0.data (.list []) }, w, .ok⟩
-      else
-        -- preprocess
-        let jobs : Except Err (List BlockJob) := blocks.zipIdx.mapM (fun ((cycle, o), i) =>
-          let sub := subCircuit w.blocks o
-          match subModel s0.data s0.circ o with
-          | none => .error .value
-          | some sm =>
-            match blockData s0.data i cycle o sub sm cfg.calcErr with
-            | .error e => .error e
-            | .ok bd => .ok ⟨i, cycle, o, sub, bd⟩)
-        match jobs with
-        | .error e => some (Res.fail [] s0 w e)
-        | .ok jobs =>
-          match mapM' (fun w (j : BlockJob) => subDoWork (exec env fuel) body w ⟨j.sub, j.bd⟩) w jobs with
-          | none => none
-          | some (rs, w1) =>
-            let tr := jobTraces rs (List.range rs.length)
-            match firstRaised rs with
-            | some e => some (Res.fail tr s0 w1 e)
-            | none =>
-              -- postprocess
-              let model := s0.data.model
-              let step := fun (acc : World × List ((Int × Int) × Op) × List Val × Rat)
-                              (jr : BlockJob × Res) =>
-                let (w, items, recs, esum) := acc
-                let (j, r) := jr
-                let new := r.st.circ
-                let accept := match cfg.rfilter with
-                  | .fn i => some (env.rfilt i w.blocks new j.op)
-                  | .named name => (env.filters.find? (·.1 == name)).map
-                      (fun e => e.2.eval model new j.op (w.blocks.body? j.op.gid))
-                match accept with
-                | none => (w, items, recs, esum)      -- unknown name: raised before (see above)
-                | some true =>
-                  let (bl, g) := internBlock w.blocks new
-                  let bd := { r.st.data with data := r.st.data.data.put "replaced" (Val.ofBool true) }
-                  ({ w with blocks := bl },
-                   items ++ [(((j.cycle : Int), (j.op.head : Int)), blockOpOf g new j.op.loc)],
-                   recs ++ [encPData bd], esum + bd.error)
-                | some false =>
-                  let bd := { r.st.data with data := r.st.data.data.put "replaced" (Val.ofBool false) }
-                  (w, items, recs ++ [encPData bd], esum)
-              let (w2, items, recs, esum) := (jobs.zip rs).foldl step (w1, [], [], 0)
-              let (c', rr) := s0.circ.batchReplace items
-              match rr with
-              | .error e => some (Res.fail tr { s0 with circ := c' } w2 e)
-              | .ok () =>
-                let d1 := appendRec s0.data (.list recs)
-                some ⟨tr, ⟨c', d1.updateErrorMul esum⟩, w2, .ok⟩
-    | .clearAll =>
-      let d := s.data.data.filter (fun e =>
-        !(e.1.startsWith feKey) && !(e.1.startsWith passDownPrefix))
-      some ⟨[], { s with data := { s.data with data := d } }, w, .ok⟩
+      | some (rs, w1) =>
+        let tr := jobTraces rs (List.range rs.length)
+        match firstRaised rs with
+        | some e => some (Res.fail tr s0 w1 e)
+        | none =>
+          let post := fePost env cfg s0.data.model w1 (jobs.zip rs)
+          let cr := s0.circ.batchReplace post.items
+          match cr.2 with
+          | .error e => some (Res.fail tr { s0 with circ := cr.1 } post.w e)
+          | .ok () =>
+            some ⟨tr, ⟨cr.1, (feAppendRec s0.data (.list post.recs)).updateErrorMul post.esum⟩, post.w, .ok⟩
+
+/-- ClearAllBlockData.run -/
+def clearAllM (w : World) (s : St) : Res :=
+  ⟨[], { s with data := { s.data with data := s.data.data.filter (fun e =>
+      !(e.1.startsWith feKey) && !(e.1.startsWith passDownPrefix)) } }, w, .ok⟩
+
+/-- one pass, given how its sub-passes run -/
+def execStep (env : Env) (f : Run) : Run
+  | .leaf i, w, s => some (leafM env i w s)
+  | .seq ts, w, s => seqM f ts w s
+  | .ite p t e, w, s => iteM f p t e w s
+  | .while p b, w, s => whileM f p b w s
+  | .doWhile p b, w, s => doWhileM f p b w s
+  | .dtd c body, w, s => dtdM env f c body w s
+  | .par ws lt pf, w, s => parM env f ws lt pf w s
+  | .forEach cfg body, w, s => forEachM env f cfg body w s
+  | .clearAll, w, s => some (clearAllM w s)
+
+/-- the interpreter; `none` = out of fuel -/
+def exec (env : Env) : Nat → Run
+  | 0 => fun _ _ _ => none
+  | fuel + 1 => execStep env (exec env fuel)
 
 end BqVerif.Control
